@@ -80,8 +80,25 @@ prop('C10',
               'patcher functions are verified for a fresh start (no checkpoint): a checkpoint is the patcher\'s own saved state'],
      not_decided='memory exhaustion; panics inside dependencies beyond their stated preconditions; the optimizer (rediff), the overlay applier and bsdiff.Apply are not under contract yet')
 
+LRUFILE = [('/bsdiff/lrufile', '(*lruFile).Seek'), ('/bsdiff/lrufile', '(*lruFile).onEvict'), ('/bsdiff/lrufile', '(*lruFile).getChunk'), ('/bsdiff/lrufile', '(*lruFile).Read')]
+BSDIFF = [('/bsdiff', '(*AdderReader).Read'), ('/bsdiff', '(*IndividualPatchContext).Apply'), ('/bsdiff', 'NewPSA'), ('/bsdiff', '(*DiffContext).Do'),
+          ('/bsdiff', '(*DiffContext).Do$1'), ('/bsdiff', '(*DiffContext).writeMessages')]
+
+prop('C12',
+     functions=BSDIFF + LRUFILE,
+     assumes=['A-SA (gosaca requires a non-empty input; fills a permutation)', 'A-LRU (simplelru: in-context contracts of Get/Add in lrufile.getChunk; eviction only frees slots)',
+              'A-FULLREAD (getChunk\'s single Read)', 'A-IO (io.CopyBuffer, io.LimitReader, bytes.Buffer: in-context contracts)',
+              'channel contents: what writeMessages receives is what the scanner\'s send contract guarantees (recv clause)',
+              'PSA.search returns a position and length inside the old buffer (in-context contract; search/matchlen bodies not under contract)'],
+     not_decided='byte equality "controls applied to old == new" as one lemma (the Add bytes written through bytes.Buffer are not modelled); index safety of the scanner analyzeBlock (flag no-safety: only its send contract is verified); cache coherence of lrufile across evictions (only "a live slot is never reused" and the chunk arithmetic); worker/dispatcher/collector scheduling and deadlock freedom')
+
+prop('C07',
+     functions=BSDIFF + LRUFILE + PATCHER_SERIES + [('/pwr/patcher', '(*savingPatcher).skipFile')],
+     assumes=['everything C12 assumes', 'A-PROTO'],
+     not_decided='the optimizer itself (rediff.analyzePatch / Optimize are not under contract: grammar of the rewritten stream, target index, mapping choice); output compression')
+
 # properties with a registered check
-CLAIMED = {'C18', 'C04', 'C09', 'C17', 'C11', 'C08', 'C01', 'C10'}
+CLAIMED = {'C18', 'C04', 'C09', 'C17', 'C11', 'C08', 'C01', 'C10', 'C12', 'C07'}
 # reasons for properties not claimed (kept current)
 NOT_APPLICABLE = {}
 LEVEL_TEXT = {
@@ -92,5 +109,7 @@ LEVEL_TEXT = {
  'C08': {'text': 'Proof of the function-level clauses: reused + fresh byte accounting grows by exactly what each operation replays (spanLen over the old file size / len(Data)); the from-scratch weak hash equals its recursive specification; matching is complete within a bucket, preferred file first; the bucket lookup is skipped only when the rolling value did not change; no match is accepted on the weak hash alone.', 'design_ref': 'DESIGN.md §5 C08'},
  'C01': {'text': 'Proof of the per-file function-level clauses that diff-then-apply rests on: whole-file-op detection is sound (same size, starts at block 0, spans all blocks, index in range), op <-> message field mapping in both directions, unknown op types are errors, per-file framing is consumed up to the end marker, no compressor is involved exactly when the algorithm is NONE, plus everything proved for C11.', 'design_ref': 'DESIGN.md §5 C01'},
  'C10': {'text': 'Proof (safety sweep with contracts): every slice/index expression, division, make and pool call of the functions on the read paths under contract is in range for arbitrary field values read from a stream; every message loop has a decreasing measure (unread bytes / block index); old-file indices are validated before they reach the container or the pool.', 'design_ref': 'DESIGN.md §5 C10'},
+ 'C12': {'text': 'Proof of the function-level clauses: Apply reads the add run at OldOffset (seek first), adds byte-wise mod 256, writes the copy run and moves the offset by len(Add)+Seek, depending on nothing else (resume from a saved offset); lrufile never reuses a live slot, reads the chunk of the offset, never hands out bytes beyond the file and reports io.EOF only with a short read; the differ\'s partition/scan-block arithmetic never divides by zero, never sorts an empty partition, tiles the new buffer; every match has its add run before its copy run inside both buffers; Seek is the gap to the next add run.', 'design_ref': 'DESIGN.md §5 C12'},
+ 'C07': {'text': 'Proof of the clauses the optimizer\'s output correctness rests on: termination without crash of the differ for all partition settings (C12 arithmetic), bsdiff series consumed and skipped by their grammar in the patcher, old-file index validated before use. The optimizer\'s own functions are not under contract.', 'design_ref': 'DESIGN.md §5 C07'},
  'C04': {'text': 'Proof of the function-level clauses: split function cases, one hash per scanned block plus the empty-file entry with correct index/short size, hash grouping by prefix sums of per-file hash counts (ComputeHashInfo, incl. error iff count differs), block validator verdicts; rolling/from-scratch weak hash equals the recursive specification.', 'design_ref': 'DESIGN.md §5 C04'},
 }
